@@ -55,6 +55,13 @@ def _std_summary(callee, t, args_iv, get_cell):
         # Some(d) with 0 <= d < radix
         r = args_iv[1] if len(args_iv) > 1 else TOP
         return {("@Some", 0): (0, max(0, r[1] - 1) if r[1] != INF else 35)}
+    if c.endswith("<std::iter::Enumerate<I> as std::iter::Iterator>::next"):
+        # Some((i, x)): i counts the items of the underlying iterator; over memory (slice, Vec, chars,
+        # split) there are at most isize::MAX of them
+        full = t.get("callee_full") or ""
+        if any(m in full for m in ("std::slice::Iter<", "std::slice::IterMut<", "std::vec::IntoIter<", "std::str::Chars<", "std::str::Split<", "std::array::IntoIter<")):
+            return {("@Some", 0, 0): (0, 2**63 - 2)}
+        return None
     if c.endswith("<impl str>::len") or c.endswith("Vec::<T, A>::len") or c.endswith("::len"):
         return {(): (0, 2**63 - 1)}          # allocation sizes are bounded by isize::MAX
     if c.endswith("::abs"):
